@@ -13,6 +13,8 @@ def handle (line : String) : String :=
     | some "alg" => toString (AlgDriver.run s.args)
     | some "wcase" => toString (WorldDriver.run s.args)
     | some "hist" => toString (HistDriver.run s.args)
+    | some "wpair" => toString (WorldDriver.runPair s.args)
+    | some "wdiff" => toString (WorldDriver.runWDiff s.args)
     | some "wspec" => toString (Spec.SpecDriver.run s.args)
     | _ => "bad-op"
 
